@@ -19,10 +19,13 @@ def us(d):
 
 
 def ticks(f):
-    fr = Fraction(f) * 8
-    if fr.denominator != 1:
+    """a duration in whole microseconds; binary64 sums of decimal texts with at most six fractional digits are within
+    a hundredth of a microsecond of the exact sum for the sizes generated, anything else is reported as inexact (X)"""
+    fr = Fraction(f) * 1000000
+    n = round(fr)
+    if abs(fr - n) > Fraction(1, 100):
         return 'X%r' % f
-    return 'V%d' % fr.numerator
+    return 'V%d' % n
 
 
 def acc(fn, conv):
